@@ -231,6 +231,7 @@ def handle (op : String) (args : List String) (impl : String) : Option Verdict :
         | some sn =>
           mx == "free" && steps.length == ops.length &&
           ((([] : List (Nat × Status)) :: sn).zip steps).all (fun (prev, st) => selOk prev st) &&
+          ((([] : List (Nat × Status)) :: sn).zip (sn.zip ops)).all (fun (prev, (next, op)) => stepOk op prev next n) &&
           (!sequential || (List.range n).all fun k => finalAlong k ([] :: sn))
         | none => false
       | _ => false
